@@ -349,6 +349,30 @@ def Mon.step (m : Mon) (w : World) (l : Label) (w' : World) : Mon × List Vio :=
            (w'.bus b).handlers.any (fun r => match r.kind with | .expect x' _ => x' == x | _ => false) then
           v "C18" "registryNotRestored" [] s!"bus {b}: after expect() of task {x} its temporary handler is still registered or other handlers changed" else []))
     | _ => (m, [])
+  | .expectCancel x =>
+    let got : Option EId := none
+    match w.waiter x with
+    | .expecting b key _ _ _ =>
+      let since := ((m.expSince.find? (·.1 == x)).map (·.2)).getD []
+      let pred := match (w.bus b).handlers.find? (fun r => match r.kind with | .expect x' _ => x' == x | _ => false) with
+        | some r => (match r.kind with | .expect _ p => p | _ => 0)
+        | none => 0
+      let cands := since.filter fun e => (key == 0 || (w.ev e).etype == key) && expectMatch pred e == some true
+      let before := ((m.expHandlers.find? (·.1 == x)).map (·.2)).getD []
+      (m,
+       (match got with
+        | some e =>
+          (if !((key == 0 || (w.ev e).etype == key) && expectMatch pred e == some true) then
+             v "C18" "nonMatching" [] s!"expect() of task {x} returned event {e}, which does not match" else []) ++
+          (if cands.head? != some e then
+             v "C18" "notFirst" (if m.expNested.contains x then ["F0"] else [])
+               s!"expect() of task {x} returned {e}; first match in processing order is {cands.head?}" else [])
+        | none => []) ++
+       (let perm (l : List Reg) := l.filter fun r => match r.kind with | .expect _ _ => false | _ => true
+        if perm (w'.bus b).handlers != perm before ||
+           (w'.bus b).handlers.any (fun r => match r.kind with | .expect x' _ => x' == x | _ => false) then
+          v "C18" "registryNotRestored" [] s!"bus {b}: after expect() of task {x} its temporary handler is still registered or other handlers changed" else []))
+    | _ => (m, [])
   | .walWrite _ b e ok =>
     (m, if ok && (w'.bus b).walLines.getLast? != some e then v "C17" "walLine" [] s!"bus {b} event {e}" else [])
   | _ => (m, [])
